@@ -3,7 +3,7 @@
    number of accumulated terms, every operand code and every input in the stated range are
    inside the forall. *)
 From Coq Require Import ZArith QArith Qminmax List Bool.
-From QV Require Import Base.ZQ Base.FL QTools.Types QTools.Ops QTools.LayerMap.
+From QV Require Import Base.ZQ Base.FL Quant.Fixed QTools.Types QTools.Ops QTools.LayerMap.
 Import ListNotations.
 Open Scope Z_scope.
 
@@ -77,6 +77,14 @@ Theorem C18_auto_po2_adjusted_type_holds_scaled_products :
   frac_bits m' = frac_bits m - mn /\ code_ok m' (k * 2 ^ (s - mn)).
 Proof. exact auto_po2_adjusted_multiplier_holds_scaled_product. Qed.
 Print Assumptions C18_auto_po2_adjusted_type_holds_scaled_products.
+
+(* every weight, bias and fixed-point activation fits the quantizer type reported for it: the quantized_bits
+   model of C01 emits only codes of the qtools type that convert_qkeras_quantizer produces, on the same grid *)
+Theorem C18_quantized_bits_values_fit_reported_type :
+  forall (c : Quant.Fixed.qbits) a b, 0 < Quant.Fixed.qb_ub c ->
+  frac_bits (qt_of_qbits c) = - Quant.Fixed.qb_se c /\ code_ok (qt_of_qbits c) (Quant.Fixed.qb_code c a b).
+Proof. exact qbits_value_fits_reported_type. Qed.
+Print Assumptions C18_quantized_bits_values_fit_reported_type.
 
 (* weight-based estimator: with the bias added once, (n1, n0) bound every output over the input box *)
 Theorem C18_estimator_bounds_every_output :
